@@ -251,6 +251,13 @@ def stepC07 (line : String) : Option String :=
   | ["i3", spec] => some <| match parsePTx spec with
     | some p => hexStr (cId.enc (resolve p []))
     | none => "bad-op"
+  | "dm3" :: a :: b :: _ => some <| match parsePTx a, parsePTx b with
+    -- two version-3 transactions: same signing digest / same id?
+    | some p, some q =>
+      let dd := if cDigest.enc (resolve p []).core == cDigest.enc (resolve q []).core then "collide" else "distinct"
+      let ii := if cId.enc (resolve p []) == cId.enc (resolve q []) then "collide" else "distinct"
+      s!"digest={dd} id={ii}"
+    | _, _ => "bad-op"
   | ["d1", _] => some "ok"
   | ["k1", ver, "addr-amount"] =>
     -- the witness of `XV.C07.digest_binds_fields_counterexample` (v1/v2 stream); under v3 the framed encoding differs
